@@ -167,6 +167,8 @@ def run(ctx: Ctx, env):
                     if p.outcome != "return":
                         continue
                     n_fn += 1
+                    from .common import check_arguments_influence
+                    check_arguments_influence(ctx, "R3.result-depends-on-operands", f"{hn}/{n}", p, env.schema, p.entry.get("where", ""))
                     t = T.norm(p.value)
                     problem = _check_function(f, n, t)
                     if problem == "UNKNOWN":
